@@ -66,7 +66,7 @@ CHECKS = {
     ),
     "C03": dict(
         level="exploration",
-        required_probes=['nonempty_rows_compared', 'cache_mode_switch', 'symmetry_toggle_and_set_up', 'resetup_geo_1', 'thread_blocked_on_lock_or_critical'],
+        required_probes=['nonempty_rows_compared', 'cache_mode_switch', 'symmetry_toggle_and_set_up', 'resetup_geo_1', 'thread_blocked_on_lock_or_critical', 'interpolation_rows_compared'],
         parts=[dict(harness="chk_C03", variant="seq", src="checks/chk_C03.cpp",
                     runs=dict(quick=1600, thorough=150000), wall_cap=dict(quick=110, thorough=1800)),
                dict(harness="chk_C03", variant="omp", src="checks/chk_C03.cpp",
@@ -75,10 +75,11 @@ CHECKS = {
               "symmetry switches, cache mode, tangential rays, then 2..60 operations: row requests concentrated on 3 hot bins and their "
               "symmetry relatives (repeats), clear_cache, cache-mode switches, symmetry toggles + set_up, set_up for another geometry / "
               "image grid and back; every returned row is compared bitwise with a fresh history-free object of the same configuration "
-              "and up to rounding with a fresh matrix without symmetries and cache.  omp part: 2..16 simulated threads request "
+              "and up to rounding with a fresh matrix without symmetries and cache; one history in eight runs on "
+              "ProjMatrixByBinUsingInterpolation (switches through its parameter text) instead of the ray-tracing matrix.  omp part: 2..16 simulated threads request "
               "overlapping rows from one shared cache under a seeded schedule, compared with one thread.  Non-trivial = >= 2 operations "
               "(seq) or >= 1 context switch (omp); distinct = (operation history, schedule hash)."),
-        components=dict(real=REAL_COMMON + ["ProjMatrixByBin cache / locks, ProjMatrixByBinUsingRayTracing, PET symmetries and symmetry operations, TOF kernel"],
+        components=dict(real=REAL_COMMON + ["ProjMatrixByBin cache / locks, ProjMatrixByBinUsingRayTracing, ProjMatrixByBinUsingInterpolation, PET symmetries and symmetry operations, TOF kernel"],
                         stub=["omp part: libgomp and libtsan replaced by simgomp/simtsan"]),
         assumptions=["reference = the library's own simplest configuration (ray tracing without symmetries and cache)",
                      "elements below 2e-4 of the row maximum may be present in one row only (zero-length end-point / corner ties); "
